@@ -166,6 +166,8 @@ def CalmLocal : Ev → Prop
   | .send => True
   | .report => True
   | .prompt _ => True
+  | .suspend => True
+  | .resume => True
   | _ => False
 
 theorem condOk_sendStep {s : Send.State} (h : CondOk s) (hm : s.cfg.mode = .Acknowledged) (now : Nat) (e : Ev)
@@ -186,8 +188,19 @@ theorem condOk_sendStep {s : Send.State} (h : CondOk s) (hm : s.cfg.mode = .Ackn
     | prompt k => exact Send.condOk_frame h0 rfl rfl rfl rfl
     | timeout => rcases he with he | ⟨p, hp⟩ <;> first | exact absurd he id | cases hp
     | cancel => rcases he with he | ⟨p, hp⟩ <;> first | exact absurd he id | cases hp
-    | suspend => rcases he with he | ⟨p, hp⟩ <;> first | exact absurd he id | cases hp
-    | resume => rcases he with he | ⟨p, hp⟩ <;> first | exact absurd he id | cases hp
+    | suspend =>
+      have : CondOk (Send.suspend { s with sent := none, out := [] } now) := by
+        simp only [Send.suspend]
+        refine Send.condOk_emit (s := _) ?_ _
+        exact Send.condOk_frame h0 rfl rfl rfl rfl
+      exact this
+    | resume =>
+      have : CondOk (Send.resume { s with sent := none, out := [] } now) := by
+        refine Send.condOk_frame h0 (Send.sendState_resume _ _) (Send.condition_resume _ _) (Send.eof_resume _ _) ?_
+        simp only [Send.resume, Send.emit]
+        repeat' split
+        all_goals rfl
+      exact this
     | abandon => rcases he with he | ⟨p, hp⟩ <;> first | exact absurd he id | cases hp
 
 end Cfdp.Loop
